@@ -69,6 +69,8 @@ type Interp struct {
 	now      *virtClock
 	harnessPkg string
 	uniques    []uniqueEnt
+	noSummaries  bool
+	inInit       bool
 	snap         *snapState
 	pathCopier   *copier
 	snapDisabled bool
@@ -106,10 +108,15 @@ type snapState struct {
 // preInit runs the harness package initialiser (and transitively those of the
 // packages whose init is executed) and snapshots the resulting global state.
 func (in *Interp) preInit(pkg *ssa.Package) {
-	if in.snap != nil || in.snapDisabled {
+	if in.snap != nil {
 		return
 	}
+	in.inInit = true
 	in.ensureInit(pkg)
+	in.inInit = false
+	if in.snapDisabled {
+		return
+	}
 	if in.e.depth != 0 || len(in.e.inputs) != 0 || in.now != nil {
 		in.snapDisabled = true
 		return
@@ -725,6 +732,21 @@ func (in *Interp) callFunction(fr *frame, fn *ssa.Function, args []Value, env []
 			in.ensureInit(fn.Pkg)
 		}
 		return nil
+	}
+	if !in.noSummaries && !in.inInit && fn.Signature.Results().Len() > 0 && in.isPure(fn, 0) {
+		sym := false
+		for _, a := range args {
+			if hasSymbolic(a) {
+				sym = true
+				break
+			}
+		}
+		if sym {
+			if v, ok := in.callMerged(fr, fn, args, env, site); ok {
+				in.e.summarised[fnName(fn)] = true
+				return v
+			}
+		}
 	}
 	return in.callFn(fr, fn, args, env, site)
 }
